@@ -71,6 +71,14 @@ NOTES = [
     "one-shot finish claim",
     "sizes (inputs consumed, output printed, traceback depth, message / argument / source length) and the report's "
     "formatter are not in the model; sampled by the size sweep shared with C04 (sandboxexec_sizes.py)",
+    "WHICH REPORT is graded (MAIN_REPORT / a Report of its own through commands with report= / a Sandbox(report=...) "
+    "object, with other reports alive) and the EXECUTED TEXT differing from the text stored under the file name are "
+    "not in the model: sampled (sandboxexec_where.py), compared with the model's answer for the same history on "
+    "MAIN_REPORT / with the stored text. TIMEOUT as an ending stays outside the model (C14's protocol); C05 adds a "
+    "SEARCH-ONLY stream for what C14's forced interleavings do not vary: an execution NESTED in another one that is "
+    "given up on (every nesting route; the abandoned code ending at once or swallowing its SystemExit), judged by the "
+    "snapshot oracle right after the inner call returns and again after the abandoned thread has ended, and an "
+    "abandoned thread that is released by - and ends during - the next top-level execution",
 ]
 
 
